@@ -668,6 +668,14 @@ func (cs c02Case) envString() string {
 	return "[" + strings.Join(l, " ") + "]"
 }
 
+func (cs c02Case) envCoq() string {
+	var l []string
+	for _, e := range cs.env {
+		l = append(l, "("+coqBS(e[0])+", "+coqBS(e[1])+")")
+	}
+	return "[" + strings.Join(l, "; ") + "]"
+}
+
 // every variable name the configured templates refer to: the identifiers after `$`, `${`, `${#`, `${!` in the
 // keys and values, in order of first appearance; USERNAME (the one variable the expansion knows) always
 func c02TemplateVariables(tpl []sshExtension) []string {
@@ -1135,7 +1143,7 @@ func TestVerif_C02(t *testing.T) {
 	for vi, v := range variants {
 		sb.WriteString(fmt.Sprintf("Definition tpl_%d : list (bs * bs) := %s.\n", vi, tplCoq(v.templates)))
 	}
-	sb.WriteString("Definition mk (ed : bool) (extra : list N) (tpl : list (bs * bs)) (realm : option bs) (exp : list (bs * option bs)) (g m : option (list bs)) (u tg : bs) (ty : N) (k : option (N * bool)) (ag : bool) (o : observed) : c02case :=\n  {| k_host := " + coqBS(host) + "; k_ed_ca := ed; k_extra := extra; k_templates := tpl; k_realm := realm; k_expansions := exp; k_groups := g; k_methods := m; k_user := u; k_target := tg; k_type := ty; k_key := k; k_add_groups := ag; k_obs := o |}.\n")
+	sb.WriteString("Definition mk (ed : bool) (extra : list N) (tpl : list (bs * bs)) (realm : option bs) (exp : list (bs * option bs)) (g m : option (list bs)) (u tg : bs) (ty : N) (k : option (N * bool)) (ag : bool) (ev : list (bs * bs)) (o : observed) : c02case :=\n  {| k_host := " + coqBS(host) + "; k_ed_ca := ed; k_extra := extra; k_templates := tpl; k_realm := realm; k_expansions := exp; k_groups := g; k_methods := m; k_user := u; k_target := tg; k_type := ty; k_key := k; k_add_groups := ag; k_env := ev; k_obs := o |}.\n")
 	sb.WriteString("Definition ob (issued err ssh : bool) (names : list bs) (keyid : bs) (key : N) (ut ca ec ep : bool) (ex : list (bs * bs)) (sg : N) (orgs gr me : list bs) (krb : option (bs * bs)) (other : list bs) : observed :=\n  {| o_issued := issued; o_error := err; o_ssh := ssh; o_names := names; o_keyid := keyid; o_key := key; o_user_type := ut; o_is_ca := ca; o_eku_client := ec; o_eku_pkinit := ep; o_exts := ex; o_signer := sg; o_orgs := orgs; o_groups := gr; o_methods := me; o_krb := krb; o_other_names := other |}.\n")
 	// the shell-expansion oracle per (configuration, user), shared by the cases of that user: every template
 	// string -> its expansion, None when the expander rejects it for this user
@@ -1194,10 +1202,10 @@ func TestVerif_C02(t *testing.T) {
 		if i == len(cases)-1 {
 			sep = ""
 		}
-		sb.WriteString(fmt.Sprintf(" mk %s %s tpl_%d %s %s %s %s %s %s %d %s %s\n   (ob %s %s %s %s %s %d %s %s %s %s %s %d %s %s %s %s %s)%s\n",
+		sb.WriteString(fmt.Sprintf(" mk %s %s tpl_%d %s %s %s %s %s %s %d %s %s %s\n   (ob %s %s %s %s %s %d %s %s %s %s %s %d %s %s %s %s %s)%s\n",
 			coqBool(v.edCA), v.extraCoq(), cs.variant, realm, expName[fmt.Sprintf("%d|%s", cs.variant, cs.user)],
 			coqOptBSList(c02ExpectedGroups(v, cs.user), true), coqOptBSList(c02ExpectedMethods(v, cs.user), true),
-			coqBS(cs.user), coqBS(cs.target), cs.typ, keyLit, coqBool(cs.addGroups),
+			coqBS(cs.user), coqBS(cs.target), cs.typ, keyLit, coqBool(cs.addGroups), cs.envCoq(),
 			coqBool(o.issued), coqBool(o.status >= 400), coqBool(o.ssh), coqBSList(o.names), coqBS(o.keyid), o.keyIdx,
 			coqBool(o.userType), coqBool(o.isCA), coqBool(o.ekuClient), coqBool(o.ekuPkinit), coqPairs(o.exts), o.signer,
 			coqBSList(o.orgs), coqBSList(o.groups), coqBSList(o.methods), krb, coqBSList(o.otherNames), sep))
